@@ -490,6 +490,7 @@ fn main() {
                 .find_map(|a| a.strip_prefix("--sweep-cap=").and_then(|v| v.parse().ok()))
                 .unwrap_or(400usize);
             let mut ctx = Ctx { cache: CacheSt::new(0), sweep_cap, oracles, redb_real };
+            let flush_each = std::env::var("BS_FLUSH").is_ok();
             let stdin = std::io::stdin();
             let stdout = std::io::stdout();
             let mut out = std::io::BufWriter::new(stdout.lock());
@@ -504,6 +505,9 @@ fn main() {
                     Err(_) => "harness-panic".into(),
                 };
                 writeln!(out, "{}", o).unwrap();
+                if flush_each {
+                    out.flush().unwrap();
+                }
             }
         }
         "gen-real" => oracle::gen_real(&args[2..]),
